@@ -2,7 +2,6 @@ package wctl
 
 import (
 	"crypto/ed25519"
-	"encoding/binary"
 	"encoding/hex"
 	"fmt"
 	"time"
@@ -65,12 +64,23 @@ func (c *cmdFields) String() string {
 	return fmt.Sprintf("%s origin=%x id=%d ts=%d sig=%x", k, c.origin[:2], c.id, c.ts, simrt.FNV(c.sig[:]))
 }
 
+// signable returns the bytes the repository signs for (origin, id, timestamp).
+// The harness does not assume their layout: the oracle never asks "do these
+// bytes verify" but "was this very signature made by the key holder for exactly
+// this origin, identifier and timestamp" (signedFor), which is what the
+// statement demands whatever the encoding is.
 func signable(origin identity.AgentID, id, ts uint64) []byte {
-	b := make([]byte, 32)
-	copy(b, origin[:])
-	binary.BigEndian.PutUint64(b[16:], id)
-	binary.BigEndian.PutUint64(b[24:], ts)
-	return b
+	return (&protocol.SleepCommand{OriginAgent: origin, CommandID: id, Timestamp: ts}).SignableBytes()
+}
+
+func tripleKey(origin identity.AgentID, id, ts uint64) string {
+	return fmt.Sprintf("%x/%d/%d", origin[:], id, ts)
+}
+
+// signedFor reports whether sig is a signature the key holder made for exactly (origin, id, ts).
+func (w *c28World) signedFor(c *cmdFields) bool {
+	s, ok := w.signed[tripleKey(c.origin, c.id, c.ts)]
+	return ok && s == c.sig
 }
 
 type credit struct {
@@ -103,6 +113,7 @@ type c28World struct {
 	op       int
 	obs      []*agentObs
 	captured []cmdFields // genuine commands issued by the operator, as seen on the wire
+	signed   map[string][64]byte // (origin, id, timestamp) -> the signature the key holder made for it
 	capKeys  map[string]bool
 	nextID   uint64
 	raws     []*RawPeer
@@ -123,7 +134,7 @@ func fixedKey(b byte) ed25519.PrivateKey {
 
 // verdict: 2 = valid, 1 = signature fine and timestamp at the window edge, 0 = invalid
 func (w *c28World) verdict(c *cmdFields) (int, string) {
-	if !ed25519.Verify(w.pub, signable(c.origin, c.id, c.ts), c.sig[:]) {
+	if !w.signedFor(c) {
 		return 0, "signature does not verify"
 	}
 	if c.ts > 1<<40 {
@@ -204,8 +215,14 @@ func (w *c28World) onFrame(ev *FrameEvent) {
 	carrier := carrierName(ev.Type)
 	for i := range cmds {
 		c := &cmds[i]
-		v, why := w.verdict(c)
 		k := c.key()
+		if fromAgent && from == w.op && c.origin == w.m.Nodes[from].ID && w.obs[from].delivered[k] == nil &&
+			ed25519.Verify(w.pub, signable(c.origin, c.id, c.ts), c.sig[:]) {
+			// the operator's own API call (never delivered to it, names it as origin):
+			// it holds the key and signed exactly this triple
+			w.signed[tripleKey(c.origin, c.id, c.ts)] = c.sig
+		}
+		v, why := w.verdict(c)
 		simrt.Eventf("wire %s %s->%s %s seenby=%d : %s", carrier, ev.From, ev.To, c, len(c.seenBy), why)
 		if fromAgent {
 			w.judgeEmission(from, ev, carrier, c, k)
@@ -248,13 +265,15 @@ func (w *c28World) judgeEmission(x int, ev *FrameEvent, carrier string, c *cmdFi
 	if d == nil && c.origin == nd.ID {
 		// never delivered to x and x names itself as the origin: x issued it (API call), this is not a forward
 		if x == w.op && ed25519.Verify(w.pub, signable(c.origin, c.id, c.ts), c.sig[:]) && !w.capKeys[k] {
+			// the operator's own API call: it holds the key and signed exactly this triple
 			w.capKeys[k] = true
 			w.captured = append(w.captured, *c)
+			w.signed[tripleKey(c.origin, c.id, c.ts)] = c.sig
 		}
 		return
 	}
 	simrt.Probe("c28_command_forwarded")
-	if !ed25519.Verify(w.pub, signable(c.origin, c.id, c.ts), c.sig[:]) {
+	if !w.signedFor(c) {
 		simrt.Failf("forwarded-invalid-command", "forwarded a "+c.kind+" command whose signature does not verify", "%s wrote %s to %s: %s", nd.Name, carrier, ev.To, c)
 	}
 	if d == nil {
@@ -382,6 +401,9 @@ func (w *c28World) reach(v int, fresh bool, limit time.Duration) *endpoint {
 
 func (w *c28World) sign(priv ed25519.PrivateKey, origin identity.AgentID, id, ts uint64) (s [64]byte) {
 	copy(s[:], ed25519.Sign(priv, signable(origin, id, ts)))
+	if priv.Equal(w.priv) {
+		w.signed[tripleKey(origin, id, ts)] = s
+	}
 	return
 }
 
@@ -422,15 +444,14 @@ func (w *c28World) forge(v int) (cmdFields, string) {
 		c = base
 		c.ts += 1 + uint64(simrt.Choose(60, "ts-delta"))
 	case "outside-window":
-		offs := []int64{-306, 306, -320, 320, -3600, 3600, -86400 * 365, 86400 * 365}
-		k := simrt.Choose(len(offs)+2, "ts-offset")
-		switch {
-		case k < len(offs):
+		offs := []int64{-306, 306, -320, 320, -3600, 3600, -86400 * 365, 86400 * 365, 86400 * 365 * 293, 86400 * 365 * 400, 86400 * 365 * 5000}
+		abs := []uint64{0, ^uint64(0) - 5, 1 << 62, 1<<63 - 1, 1 << 63, 1<<63 + 1000, 1<<40 + 1}
+		k := simrt.Choose(len(offs)+len(abs), "ts-offset")
+		if k < len(offs) {
 			c.ts = uint64(int64(now) + offs[k])
-		case k == len(offs):
-			c.ts = 0
-		default:
-			c.ts = ^uint64(0) - 5
+		} else {
+			c.ts = abs[k-len(offs)]
+			simrt.Probe("c28_extreme_timestamp")
 		}
 		c.sig = w.sign(w.priv, c.origin, c.id, c.ts)
 		simrt.Probe("c28_outside_window")
@@ -518,15 +539,10 @@ func runC28() {
 	// wiring, every agent may sleep whether it listens or not
 	classic := simrt.Chance(1, 4, "sleepers-with-listeners")
 	m := NewMesh(n, topo)
-	w := &c28World{m: m, byName: map[string]int{}, capKeys: map[string]bool{}, rawStart: map[string]time.Duration{},
+	w := &c28World{m: m, byName: map[string]int{}, capKeys: map[string]bool{}, signed: map[string][64]byte{}, rawStart: map[string]time.Duration{},
 		attached: map[int]*RawPeer{}, hubs: map[int]*rawHub{}, sleeper: make([]bool, n),
 		priv: fixedKey(0x11), wrong: fixedKey(0x77)}
 	w.pub = w.priv.Public().(ed25519.PublicKey)
-	// the layout of the signed bytes is an assumption of this harness: cross-check it once
-	probe := &protocol.SleepCommand{OriginAgent: m.Nodes[0].ID, CommandID: 0x0102030405060708, Timestamp: 0x1112131415161718}
-	if string(probe.SignableBytes()) != string(signable(probe.OriginAgent, probe.CommandID, probe.Timestamp)) {
-		panic("harness assumption broken: signed-bytes layout is not origin||be64(id)||be64(timestamp)")
-	}
 	pollInterval := []time.Duration{2 * time.Hour, 40 * time.Second, 20 * time.Second}[simrt.Choose(3, "poll-interval")]
 	w.op = 0
 	listenCfg := func(nd *Node) config.ListenerConfig {
